@@ -134,9 +134,11 @@ def digest_obj(o, depth=0):
     if isinstance(o, np.ndarray) and hasattr(o, "astuple") and depth < 6:
         # DiscreteField: an ndarray subclass carrying grad/div/curl/hess/... as attributes
         return "DF(" + ",".join(digest_obj(None if c is None else np.asarray(c).view(np.ndarray), depth + 1)
-                                for c in o.astuple) + ")"
+                                for c in o.astuple) + ")" + ("" if o.flags.writeable else ":read-only")
     if isinstance(o, np.ndarray):
-        return digest_array(o)
+        # (the writeable flag is part of the state of a shared input: an array the caller could update in place before the
+        # call must still be updatable after it)
+        return digest_array(o) + ("" if o.flags.writeable else ":read-only")
     if isinstance(o, dict):
         return "{" + ",".join(f"{k}:{digest_obj(o[k], depth + 1)}" for k in sorted(o, key=str)) + "}"
     if isinstance(o, (list, tuple)):  # DiscreteField is a NamedTuple
